@@ -32,6 +32,7 @@ type brokerPublishTransaction interface {
 	SetSNPublish(*snPkts1.Publish)
 	ProceedSN(newState transactionState, snPkt snPkts.Packet) error
 	ProceedMQTT(newState transactionState, mqPkt mqPkts.ControlPacket) error
+	Flushed(snPkt snPkts.Packet)
 }
 
 type brokerPublishTransactionBase struct {
@@ -39,6 +40,24 @@ type brokerPublishTransactionBase struct {
 	log       util.Logger
 	snPublish *snPkts1.Publish
 	handler   *handler1
+}
+
+// A packet for a sleeping client waits in the handler's buffer until the client
+// wakes up. Retrying it (and giving up) meanwhile would only duplicate it
+// in the buffer and lose the transaction. The same holds while the buffer is
+// being sent to the client which has just woken up.
+func (t *brokerPublishTransactionBase) paused() bool {
+	_, forClient := t.Data.(snPkts.Packet)
+	state := t.handler.state.Get()
+	return forClient && (state == util.StateAsleep || state == util.StateAwake)
+}
+
+// Flushed is called when a packet queued for a sleeping client has finally been
+// sent. If the transaction waits for a reply to the packet, the wait starts now.
+func (t *brokerPublishTransactionBase) Flushed(snPkt snPkts.Packet) {
+	if t.Data == snPkt {
+		t.Proceed(t.State, t.Data)
+	}
 }
 
 func (t *brokerPublishTransactionBase) SetSNPublish(snPublish *snPkts1.Publish) {
